@@ -314,6 +314,10 @@ func solveModel(file string, sec int) *SolveResult {
 func weaken(text string) string {
 	lines := strings.Split(text, "\n")
 	for i, ln := range lines {
+		if strings.HasPrefix(ln, "(assert (forall ") {
+			lines[i] = ""
+			continue
+		}
 		if strings.HasPrefix(ln, "(define-fun |as~") && (strings.Contains(ln, "(forall ") || strings.Contains(ln, "(exists ")) {
 			k := strings.Index(ln, " () Bool ")
 			if k > 0 {
